@@ -25,6 +25,9 @@ type PropSpec struct {
 	Assumed   []string   `json:"assumptions"`
 	Undecided []string   `json:"undecided_clauses"`
 	Bounded   []BoundRef `json:"bounded"`
+	// BoundedFuncs: functions outside the verifier's reach whose executable contract is only RUN on the
+	// real code over a stated finite/pseudo-random input set (bounded stand-in: never counted as proved)
+	BoundedFuncs []BoundedFunc `json:"bounded_functions"`
 	Notes     []string   `json:"notes"`
 	Timeout   int        `json:"timeout_s"`
 }
@@ -32,6 +35,13 @@ type PropSpec struct {
 type FuncRef struct {
 	Pkg string `json:"pkg"`
 	Key string `json:"key"`
+}
+
+type BoundedFunc struct {
+	Pkg   string `json:"pkg"`
+	Key   string `json:"key"`
+	Bound string `json:"bound"`
+	Iters int    `json:"iterations"`
 }
 
 type BoundRef struct {
@@ -180,6 +190,34 @@ func cmdCheck(argv []string) int {
 				}
 			}
 			fmt.Printf("UNDECIDED function=%s reason=%s\n", r.Name, r.Unsupported)
+		}
+	}
+	// bounded stand-ins: run the executable contract on the real function; nothing is proved
+	var boundedReports []map[string]interface{}
+	for _, bf := range spec.BoundedFuncs {
+		before := len(eng.obls)
+		rep := eng.verifyFunc("github.com/gotd/td/"+bf.Pkg, bf.Key)
+		eng.obls = eng.obls[:before] // no deductive claim for this function
+		f := eng.topFns[rep.Name]
+		entry := map[string]interface{}{"function": rep.Name, "bound": bf.Bound, "proved": false}
+		if f == nil || *noReplay {
+			entry["result"] = "not run"
+			boundedReports = append(boundedReports, entry)
+			continue
+		}
+		iters := bf.Iters
+		if iters == 0 {
+			iters = 20000
+		}
+		o := &Obligation{Name: f.name + "#bounded", Kind: "bounded", Fn: f.name, Pos: rep.File,
+			Desc: "bounded stand-in (" + bf.Bound + "): executable contract run on the real function", Status: "bounded"}
+		file, found, summary := eng.genReplay(*prop, f, o, nil, seed, iters)
+		entry["result"] = summary
+		entry["replay"] = file
+		boundedReports = append(boundedReports, entry)
+		if found {
+			exit = 1
+			violations = append(violations, fmt.Sprintf("VIOLATION property=%s replay=%s function=%s bounded-stand-in(%s) witness-found-on-real-code", *prop, file, rep.Name, bf.Bound))
 		}
 	}
 	harnessTried := map[string]string{}
@@ -372,7 +410,7 @@ func cmdCheck(argv []string) int {
 			"discharged_only_outside_known_finding_class": knownObls,
 			"undecided_functions":    undecidedFuncs,
 			"undecided_clauses":      spec.Undecided,
-			"bounded_stand_ins":      spec.Bounded,
+			"bounded_stand_ins":      boundedReports,
 			"contract_files":         eng.db.Files,
 			"per_obligation_timeout_s": timeout.Seconds(),
 		},
